@@ -7,42 +7,42 @@ HERE = os.path.dirname(os.path.dirname(os.path.abspath(__file__)))
 CHECKS = {
  "C18": ("proptest grammar generators + refmodel (JSON-RPC outcome + 6-field config model) + real control_socket::spawn over a Unix socket + E6 + libFuzzer c18_control (thorough)", "exploration",
          "property-based testing: grammar-generated and byte-mutated lines and line histories against an independent JSON-RPC reference model; differential between the stdin and socket entry points; thread stress in the thorough tier",
-         "For every generated line (requests from a grammar over methods x params x ids x versions, JSON of any shape, arbitrary bytes, truncated/mutated requests) dispatch returns without panic, any response is one well-formed JSON-RPC 2.0 object, requests with an id get exactly one response echoing the id with the predicted result or error code (-32700/-32600/-32601/-32602), notifications get none and are still applied; in histories the snapshot and the next get_status always show the model, the timeout stays clamped to 1000..60000 and is echoed as applied; dispatch() and dispatch_async() (with and without a subscription context) answer identically and leave equal configurations. Socket tier (quick and thorough): the real control_socket::spawn serves generated line sequences (requests, notifications, garbage, multibyte strings, several per write, split writes) on a Unix socket; the responses must equal those of dispatch() on the same lines, one per request, in order. Thorough adds the control socket of a running sender (E6) with config changes observed on the wire.",
+         "For every generated line (requests from a grammar over methods x params x ids x versions, JSON of any shape, arbitrary bytes, truncated/mutated requests) dispatch returns without panic, any response is one well-formed JSON-RPC 2.0 object, requests with an id get exactly one response echoing the id with the predicted result or error code (-32700/-32600/-32601/-32602), notifications get none and are still applied; in histories the snapshot and the next get_status always show the model, the timeout stays clamped to 1000..60000 and is echoed as applied; dispatch() and dispatch_async() (with and without a subscription context) answer identically and leave equal configurations. Socket tier (quick and thorough): the real control_socket::spawn serves generated line sequences (requests, notifications, garbage, multibyte strings, several per write, split writes) on a Unix socket; the responses must equal those of dispatch() on the same lines, one per request, in order. E6 (1 scenario quick, 4 thorough): 400 generated lines over the control socket of a running sender answer like dispatch() on a twin configuration and the live configuration follows. Ids are compared as JSON values with a 1e-12 relative tolerance for numbers the JSON library reads as floats, also inside structured ids.",
          "Left open on purpose: JSON that is not a request object, missing/non-string jsonrpc or method, id null, duplicate keys, numbers too large for the JSON library, subscription methods. Concurrency is a 4-thread stress (thorough), not schedule enumeration.",
          "5/C18"),
  "C19": ("proptest text grammar + E3 shellsim (real apply_connection_changes)", "exploration",
          "property-based testing: generated file contents against an independent line splitter + IpAddr::from_str; generated reload sequences on a live shell with survivor/removed/added relations over a full state projection",
-         "Refuse iff no parsable line (and for a missing file), else exactly the parsable lines in order; applying a list keeps every still-listed link with identity, socket object, local port and full state projection (incl. guard state and queue contents) unchanged, removes exactly the unlisted links together with their I/O handle and every attribution record the ownership model says they owned, adds each new address exactly once with an I/O entry, forgets the routing choice when a link was removed; refused reloads change nothing. Thorough adds SIGHUP reloads on the real running sender (E6): survivors keep their source port and registration, removed addresses stop sending, refused files change nothing.",
+         "Refuse iff no parsable line (and for a missing file), else exactly the parsable lines in order; applying a list keeps every still-listed link with identity, socket object, local port and full state projection (incl. guard state and queue contents) unchanged, removes exactly the unlisted links together with their I/O handle and every attribution record the ownership model says they owned, adds each new address exactly once with an I/O entry, forgets the routing choice when a link was removed; refused reloads change nothing. E6 (quick and thorough): SIGHUP reloads on the real running sender - a garbage-only file is refused and changes nothing, a real reload registers the new address, silences the removed one and the stream goes on; a reload requested while the start-up probe round is still open (one address never answers) is applied like any other.",
          "IPv4 loopback aliases only in the apply tier. Order/phase of added links and first_invalid_line not asserted. Held on what was explored.",
          "5/C19"),
- "C20": ("E5: hub futures polled by hand over generated operation interleavings; real-thread tier (thorough)", "exploration",
+ "C20": ("E5: hub futures polled by hand over generated operation interleavings (hub API and dispatch_async with a subscription context); real-thread tier (thorough); E6 subscription phase", "exploration",
          "stateful property testing over generated interleavings with hand-polled futures (a blocking publish is a pending future); OS-thread stress for lock contention",
-         "A publish completes within 3 polls while nothing else runs whatever the state of the subscribers' channels (capacity 1..128, full, closed with and without draining, never drained); every pushed line is a notification with method <topic>.update of the subscription's own topic and its own id, on its own connection; ids never repeat; per subscription each publisher's event numbers are strictly increasing; nothing published after an unsubscribe completed is delivered; closed receivers that met a publish are no longer counted and live ones are. Thorough: publisher threads finish while three subscribers never drain, observer sees per-publisher order, pruning count exact; a subscription made over the real control socket of a running sender receives well-formed updates and stops receiving them after unsubscribe (E6).",
+         "A publish completes within 3 polls while nothing else runs whatever the state of the subscribers' channels (capacity 1..128, full, closed with and without draining, never drained); every pushed line is a notification with method <topic>.update of the subscription's own topic and its own id, on its own connection; ids never repeat; per subscription each publisher's event numbers are strictly increasing; nothing published after an unsubscribe completed is delivered; closed receivers that met a publish are no longer counted and live ones are. Thorough: publisher threads finish while three subscribers never drain, observer sees per-publisher order, pruning count exact. Subscribe / unsubscribe also go through the control layer (dispatch_async with the connection's subscription context), unsubscribe as a request and as a notification: afterwards the hub no longer knows the id and the connection no longer owns it. E6 (quick and thorough): a subscription made over the real control socket of a running sender receives well-formed stats updates tagged with its id and nothing after unsubscribe, while a second subscriber that never reads does not stop the keepalives.",
          "On one thread no task suspends while holding the hub lock, so interleavings are of whole operations; true parallel interleavings are only sampled (thorough). Delivery itself is not promised, delivered events are counted.",
          "5/C20"),
- "C01": ("E3 shellsim (real handle_srt_packet / handle_uplink_packet / flush_all_batches / handle_housekeeping over loopback, virtual clock) + short-send tier (AF_UNIX datagram uplinks with tiny buffers) + E6 real run_sender_with_config (thorough)", "exploration",
+ "C01": ("E3 shellsim (real handle_srt_packet / handle_uplink_packet / flush_all_batches / handle_housekeeping over loopback, virtual clock) + short-send tier (AF_UNIX datagram uplinks with tiny buffers) + E6 real run_sender_with_config (1 scenario quick, 6 thorough)", "exploration",
          "stateful property testing with a wire-log monitor: generated event-loop interleavings and faults; per-link queue equation wire ++ queue_after == queue_before ++ routed after every step",
-         "For generated interleavings of the event loop's arms (client datagrams of every kind, length 1..1500 and sequence number incl. repeats; real uplink packets; flush ticks; housekeeping; clock steps; all batch regimes; send failures via EPIPE; re-registration) on 1..4 uplinks in both modes with the guard on/off: nothing is invented, corrupted, reordered per link or duplicated except counted probe copies on stall-gated links (<= ceil(n/100)); queue depth <= 32 after every step and 0 after a flush tick; a datagram leaves a queue without reaching the wire only on a link that failed or re-registered in that step; a datagram is refused only when no uplink is usable. Short-send tier: the uplink socket is replaced by a tiny-buffer datagram pair so that sendmmsg accepts only a prefix of a batch; the accepted prefix must reach the wire once, in order, and the rest follows the failure rule. Thorough adds a real-time run of the real sender against the cooperative receiver comparing the multiset received on all uplinks with the multiset the client sent.",
+         "For generated interleavings of the event loop's arms (client datagrams of every kind, length 1..1500 and sequence number incl. repeats; real uplink packets; flush ticks; housekeeping; clock steps; all batch regimes; send failures via EPIPE; re-registration) on 1..4 uplinks in both modes with the guard on/off: nothing is invented, corrupted, reordered per link or duplicated except counted probe copies on stall-gated links (<= ceil(n/100)); queue depth <= 32 after every step and 0 after a flush tick; a datagram leaves a queue without reaching the wire only on a link that failed or re-registered in that step; a datagram is refused only when no uplink is usable. Short-send tier: the uplink socket is replaced by a tiny-buffer datagram pair so that sendmmsg accepts only a prefix of a batch; the accepted prefix must reach the wire once, in order, and the rest follows the failure rule. Every queued datagram carries the sequence number the reference decoder reads from its bytes. E6: the real sender in real time against the cooperative receiver - every client datagram (lengths 20..1500 incl. 1472/1473/1499/1500) reaches the receiver byte-identical and in per-link order; a datagram arriving with other bytes / another length is reported as corrupted, not lost.",
          "Loopback only (no kernel reordering/loss); client datagrams never carry SRTLA type bytes; pre-registration forwarding is outside the statement. Held on what was explored.",
          "5/C01"),
- "C07": ("E1 (real SrtlaRegistrationManager in the shell's call order) + E3 shellsim tier", "exploration",
+ "C07": ("E1 (real SrtlaRegistrationManager in the shell's call order) + E3 shellsim tier + E6 handshake phase on the real loop", "exploration",
          "bounded-exhaustive enumeration of handshake sequences (depth 5-6 over a 16-symbol alphabet) plus generated sequences to depth 60, checked by an independent protocol monitor; shell tier reads REG frames off the wire",
-         "Never a REG1 on a second link while one is outstanding; driver REG1 at a tick only while no uplink is connected; id adopted only from a >=258-byte REG2 on the pending link, exactly bytes 2..258, followed by exactly one broadcast round; every REG1 / registration REG2 carries the adopted id; connected flips only on REG3 on that link; REG_ERR leaves nothing pending; the first tick at/after the 4 s deadline abandons the REG1 and a later REG_NGP produces a new one.",
+         "Never a REG1 on a second link while one is outstanding; driver REG1 at a tick only while no uplink is connected; id adopted only from a >=258-byte REG2 on the pending link, exactly bytes 2..258, followed by exactly one broadcast round; every REG1 / registration REG2 carries the adopted id; connected flips only on REG3 on that link; REG_ERR leaves nothing pending; the first tick at/after the 4 s deadline abandons the REG1 and a later REG_NGP produces a new one. E6: start-up with the first one or two REG1 frames lost, later the receiver forgets the group (REG_NGP, or REG_ERR for 12 s first): no REG1 on another link within 4 s of an unanswered one, every registration REG2 carries an id the receiver handed out, no second REG2 within 300 ms of a group's creation, all links registered within 30 s and again within 45 s.",
          "Tier 1 copies the shell's call order; tier 2 uses the real shell incl. start-up probing and the reconnect re-send path. The immediate REG1 answer to REG_NGP while a link is already connected (driver count from its last pass) is counted in the evidence, not flagged (DESIGN section 11). Exhaustive only to the stated depth.",
          "5/C07"),
- "C08": ("E3 shellsim + cooperative receiver model + generated fault schedules", "fault_enumeration",
+ "C08": ("E3 shellsim + cooperative receiver model + generated fault schedules + E6 recovery phase on the real loop", "fault_enumeration",
          "fault-injection property testing: generated per-link fault schedules on a simulated clock against the real shell; teardown-cause, retry-spacing, bounded-recovery and clean-rejoin monitors",
-         "Over generated schedules of black-holes, one-way loss, lost handshake replies, receiver amnesia (REG_NGP / REG_ERR) and socket send errors on 2..4 links, every timeout setting and both modes: an established link is torn down only after silence >= its timeout, an injected send failure or a REG_ERR; reconnect attempts happen only in housekeeping, >= 1 s apart before the first REG3 and >= 5 s after, and keep coming while the link is down; once faults are over and the receiver holds the adopted id the link is connected within 30 s; a rejoining link has window 20000, zero in-flight, empty queue, warming phase; survivors never drop a datagram while usable; a receiver-side monitor (members expire after 10 s of silence, as in srtla_rec) flags a link the sender still calls connected long after the receiver forgot it (failure never detected). Strategies include long outages beyond the receiver expiry and flapping links.",
+         "Over generated schedules of black-holes, one-way loss, lost handshake replies, receiver amnesia (REG_NGP / REG_ERR) and socket send errors on 2..4 links, every timeout setting and both modes: an established link is torn down only after silence >= its timeout, an injected send failure or a REG_ERR; reconnect attempts happen only in housekeeping, >= 1 s apart before the first REG3 and >= 5 s after, and keep coming while the link is down; once faults are over and the receiver holds the adopted id the link is connected within 30 s; a rejoining link has window 20000, zero in-flight, empty queue, warming phase; survivors never drop a datagram while usable; a receiver-side monitor (members expire after 10 s of silence, as in srtla_rec) flags a link the sender still calls connected long after the receiver forgot it (failure never detected). Strategies include long outages beyond the receiver expiry, flapping links and runs with the stall guard off; silence at teardown is measured against the configured timeout once a routing decision was taken under it. E6 (1 scenario quick, 3 thorough): the timeout is raised at run time, one link of the real sender is black-holed while the stream goes on - nothing the client sent is lost beyond one batch, the first re-registration comes no earlier than the configured timeout, retries >= 5 s apart, healthy links never re-register, a REG3 to the replaced socket does not revive the link, registered again <= 33 s after the path returns, no file descriptors left behind by the retries.",
          "Liveness clauses are bounded safety over a 70 s (quick) / 400 s (thorough) simulated horizon. Receiver model written from the protocol docs. Link 0 is always fault-free; an all-links-down run ends where production exits (10 s).",
          "5/C08"),
- "C09": ("E3 shellsim (real handle_uplink_packet + real drain_packet_queue backlog tier) + reference classification + E6 real reader tasks (thorough) + libFuzzer c09_uplink (thorough)", "exploration",
+ "C09": ("E3 shellsim (real handle_uplink_packet + real drain_packet_queue backlog tier) + reference classification + E6 real reader tasks (1 scenario quick, 6 thorough) + libFuzzer c09_uplink (thorough)", "exploration",
          "property-based testing with structure-aware generated datagrams on generated link states; oracle = reference classification by type, relay byte-equality, liveness and delivery-proof model",
-         "Every generated datagram (all type codes reachable, SRTLA/SRT types over-weighted, lengths around every parser guard up to 1500, SRTLA ACKs naming held seqs, keepalive echoes in every mutation) arriving on links in generated states: internal types never reach the client, everything else of >= 2 bytes reaches it byte-identically at least once and nothing else does (nothing before a client is known); non-registration datagrams refresh liveness; delivery proof moves only for an earned SRTLA ACK (arrival link first) or an echo answered while waiting with 0 < RTT <= 10 s; no panic. Backlog tier: bursts of up to 600 datagrams are queued on the real uplink channel and drained by the real drain_packet_queue in generated budgets; every relayable datagram reaches the client exactly once and in per-link order, none is left behind. Thorough adds the real per-uplink reader tasks of run_sender_with_config in real time.",
+         "Every generated datagram (all type codes reachable, SRTLA/SRT types over-weighted, lengths around every parser guard up to 1500, SRTLA ACKs naming held seqs, keepalive echoes in every mutation) arriving on links in generated states: internal types never reach the client, everything else of >= 2 bytes reaches it byte-identically at least once and nothing else does (nothing before a client is known); non-registration datagrams refresh liveness; delivery proof moves only for an earned SRTLA ACK (arrival link first) or an echo answered while waiting with 0 < RTT <= 10 s; no panic. Backlog tier: bursts of up to 600 datagrams are queued on the real uplink channel and drained by the real drain_packet_queue in generated budgets; every relayable datagram reaches the client exactly once and in per-link order, none is left behind. E6: bursts of 70-350 receiver datagrams through the real per-uplink reader tasks reach the client unchanged, internal types do not - also on a link that is otherwise silent (the receiver stops answering it first, so nothing but the burst wakes its reader).",
          "Reference classification by the first two bytes. Held on what was explored; a libFuzzer target extends the byte-level search in the thorough tier when built.",
          "5/C09"),
  "C14": ("E3 shellsim (real handle_housekeeping + handle_uplink_packet) + E1 RTT tracker streams", "exploration",
          "stateful property testing: generated timed histories of housekeeping ticks and echo policies; keepalive frames decoded with the reference decoder against a pre-tick snapshot",
-         "Keepalive gap on a live link <= 2 x the largest tick spacing; every keepalive is 38 bytes = 0x9000, be64(tick time), magic, version, and window / in-flight / loss count / rate (and id) equal to the pre-tick link state; an echo yields an RTT sample iff a probe was outstanding, the frame has >= 10 bytes and 0 < now - ts <= 10 s; smoothed RTT finite and >= 0 after every op and for arbitrary sample streams 1..10000 ms; after a link reset (timeout, REG_ERR, re-registration) no echo yields a sample until a new keepalive has been sent on that link. Thorough adds real-time keepalive cadence and content on the real sender (E6).",
+         "Keepalive gap on a live link <= 2 x the largest tick spacing; every keepalive is 38 bytes = 0x9000, be64(tick time), magic, version, and window / in-flight / loss count / rate (and id) equal to the pre-tick link state; an echo yields an RTT sample iff a probe was outstanding, the frame has >= 10 bytes and 0 < now - ts <= 10 s; smoothed RTT finite and >= 0 after every op and for arbitrary sample streams 1..10000 ms; after a link reset (timeout, REG_ERR, re-registration) no echo yields a sample until a new keepalive has been sent on that link. E6 (1 scenario quick, 3 thorough): keepalive cadence on the real sender in real time.",
          "Establishment counts as tick 0. 'Live' uses the timeout the link itself holds. Held on what was explored.",
          "5/C14"),
  "C10": ("E3 shellsim closed loop (classic mode, guard off) + refmodel::classic", "exploration",
@@ -50,34 +50,34 @@ CHECKS = {
          "After every op of generated closed-loop histories (client datagrams of every kind incl. retransmit-flagged and critical-window, flushes, real SRTLA ACK / SRT ACK / NAK packets, housekeeping ticks, timeouts, REG3; any starting window vector) the link that received the datagram, every window, in-flight count and queue depth equal those of the reference model (first maximum of window/(in-flight+queued+1); +29 iff in-flight x 1000 > window; +1 per acked number on connected links; -100 per charged NAK; bounds; no tick changes).",
          "Trusts refmodel::classic (written from the statement). Initial windows written directly (the statement quantifies over any vector). Flush timing read from the real queue. Held on what was explored.",
          "5/C10"),
- "C11": ("E2 selstate, enhanced mode", "exploration",
+ "C11": ("E2 selstate, enhanced mode + decision engine glue part (real handle_srt_packet, reloads)", "exploration",
          "property-based testing with an independent score recomputation (validity predicates with a 1e-9 float band): idempotence, hysteresis, cap, arg-max, factor ranges",
-         "On every enhanced-mode select of generated link-state histories: re-running selection returns the same link and previous:=result returns result; leaving a scored previous link needs >= 1.10 x its score; a capped link is never returned while an unconstrained link exists; the result is held or an arg-max of the independently recomputed scores (integer base x phase weight x quality x soft-cap x 0.02 gate); quality multiplier finite, in [0.35, 1.133], equal to the documented formula whenever refreshed, never older than 50 ms when used; soft-cap factor in [0.1, 1].",
+         "On every enhanced-mode select of generated link-state histories: re-running selection returns the same link and previous:=result returns result; leaving a scored previous link needs >= 1.10 x its score; a capped link is never returned while an unconstrained link exists; the result is held or an arg-max of the independently recomputed scores (integer base x phase weight x quality x soft-cap x 0.02 gate); quality multiplier finite, in [0.35, 1.133], equal to the documented formula whenever refreshed, never older than 50 ms when used; soft-cap factor in [0.1, 1]. Glue part: for every plain data datagram in enhanced mode the link it lands on equals the scheduler's own answer for the anchor the glue should pass (its previous choice; none after a reload removed a link).",
          "Uses the code's public in_flight_cap_exceeded as the definition of 'over its cap' and reads the multiplier actually used through a hook accessor. Held on what was explored.",
          "5/C11"),
- "C03": ("E2 selstate (real select_connection_idx on real connections) + E3 shellsim decision tier (real handle_srt_packet)", "exploration",
+ "C03": ("E2 selstate (real select_connection_idx on real connections; links removed / added as a reload does) + E3 shellsim decision tier (real handle_srt_packet, reloads through the real apply_connection_changes)", "exploration",
          "property-based testing with a validity predicate: generated link-state histories and configs, every select checked 'usable link exists => Some'; shell tier with states produced by real packets incl. REG_ERR",
          "On every select of generated link-state histories (phases, receive age at the timeout edges, in-flight around thresholds, proof age, latch/pull history, weak/loss-degraded, CC target vs bitrate, quality history, every config setting, both modes) a link is returned whenever an independently computed usable link exists; the shell tier repeats the predicate on real handle_srt_packet decisions (datagram must be queued somewhere) with link states produced by real uplink packets, housekeeping and clock steps.",
          "Link states are reachable by construction (production calls + fields the shell writes). Gate-combination histogram is in the evidence. Held on what was explored.",
          "5/C03"),
- "C04": ("E3 shellsim decision tier (real handle_srt_packet over loopback) + fault-history tier (faultsim schedules)", "exploration",
+ "C04": ("E3 shellsim decision tier (real handle_srt_packet over loopback, incl. reloads) + fault-history tier (faultsim schedules, guard on/off) + E6 recovery phase (thorough)", "exploration",
          "property-based testing with an eligibility predicate evaluated on the link that actually received the unique copy (read off queues and the wire) after generated real-packet histories",
-         "For every client datagram (data, retransmit-flagged, control; critical window open/closed; both modes; quality on/off) pushed through the real handle_srt_packet after a generated history of real uplink packets, housekeeping, clock steps and config changes, the link holding the unique copy is registered since its last reset, heard within the timeout and not stall-gated in that call; extra copies only on stall-gated connected links and never for control packets. Wire clause: no stream datagram that was accepted after the first establishment leaves on a link that is not registered at that moment. Fault-history tier: the same predicate on every datagram of the C08 fault schedules (black-holes, REG_ERR / REG_NGP amnesia, send errors, flapping).",
+         "For every client datagram (data, retransmit-flagged, control; critical window open/closed; both modes; quality on/off) pushed through the real handle_srt_packet after a generated history of real uplink packets, housekeeping, clock steps and config changes, the link holding the unique copy is registered since its last reset, heard within the timeout and not stall-gated in that call; extra copies only on stall-gated connected links and never for control packets. Wire clause: no stream datagram that was accepted after the first establishment leaves on a link that is not registered at that moment. Fault-history tier: the same predicate on every datagram of the C08 fault schedules (black-holes, REG_ERR / REG_NGP amnesia, send errors, flapping). Thorough adds the real loop: a black-holed link carries no stream datagram between its re-registration frame and the receiver's REG3.",
          "Eligibility uses the three clauses of the statement (+ connected). Held on what was explored.",
          "5/C04"),
- "C12": ("E2 selstate with a guard-always-off twin", "exploration",
+ "C12": ("E2 selstate with a guard-always-off twin + decision engine glue part (real handle_srt_packet)", "exploration",
          "metamorphic / relational property testing: state projection before = after every select; twin run with the guard always off must take the same decision whenever the guard is off",
-         "Every select leaves a full projection of each link's liveness/accounting state unchanged; with the guard off every stall flag, latch and stamp is cleared and the decision equals that of a twin link set that ran the same history with the guard never on (same previous index).",
+         "Every select leaves a full projection of each link's liveness/accounting state unchanged; with the guard off every stall flag, latch and stamp is cleared and the decision equals that of a twin link set that ran the same history with the guard never on (same previous index). Glue part: after every client datagram routed with the guard off - data, retransmit-flagged, control, critical window open or closed - no link keeps a stall flag, latch, recovery run or silence pull.",
          "Twin comparison only when the select is >=50 ms after the previous one or quality scoring is not in effect (quality cache refresh). Held on what was explored.",
          "5/C12"),
  "C13": ("E1 core traces (real select_connection_idx drives latch and pull)", "exploration",
          "stateful property testing with an independent temporal monitor over generated timed traces",
-         "Latch engages only with non-zero proof older than clamp(4 x sRTT, 1000, ceiling) and (in-flight >= threshold or silence pull held); gate-event counter moves exactly on engage; release only after reset/guard-off or after proof stayed fresh at every decision of a run spanning >= 2 x the smallest window; silence pull engages only when connected, loaded and silent for min(max(2 x sRTT, 250), W) and releases only when heard again, disconnected, reset or guard-off.",
+         "Latch engages only with non-zero proof older than clamp(4 x sRTT, 1000, ceiling) and (in-flight >= threshold or silence pull held); gate-event counter moves exactly on engage; release only after reset/guard-off or after proof stayed fresh at every decision of a run spanning >= 2 x the smallest window; silence pull engages only when connected, loaded and silent for min(max(2 x sRTT, 250), W) and releases only when heard again, disconnected, reset or guard-off. Traces include NAKs for numbers the link holds (a charge, never proof).",
          "Proof/inbound times are tracked by the harness from the trace. 'Must latch' is not asserted (the statement only says 'only when'). Held on what was explored.",
          "5/C13"),
  "C16": ("E1: LinkCongestionState direct + LinkCcController::tick_all on real connections", "exploration",
          "stateful property testing with a snapshot-to-snapshot monitor over generated tick histories",
-         "Target within [100k, 200M]; Bootstrap at the floor until an RTT sample is fed; lowered only by BackingOff (>= 0.85 x prev, >= min(observed, prev)) or once on Drain entry (>= 0.75 x prev); BackingOff never raises; seeding bounded by 1.06 x max(min(observed,4M),1M); later growth <= 6% per tick and <= 2 x observed; loss latch sets only after the exported loss average stayed > 0.55 for >= 4000 ms and clears only below 0.25.",
+         "Target within [100k, 200M]; Bootstrap at the floor until an RTT sample is fed; lowered only by BackingOff (>= 0.85 x prev, >= min(observed, prev)) or once on Drain entry (>= 0.75 x prev); BackingOff never raises; seeding bounded by 1.06 x max(min(observed,4M),1M); later growth <= 6% per tick and <= 2 x observed; loss latch sets only after the exported loss average stayed > 0.55 for >= 4000 ms and clears only below 0.25. Controller histories include ticks on links that are torn down and stay disconnected (a snapshot for every link in every tick).",
          "+-1 bit/s truncation slack. Observed bitrate written to the field the controller reads. Held on what was explored.",
          "5/C16"),
  "C17": ("E1: WeakLinkFilter::classify on real connections", "exploration",
@@ -90,19 +90,19 @@ CHECKS = {
          "After every op of a generated history the real per-link in-flight count equals the size of an independent set model (insert at flush, retire by cumulative ACK on every link, by SRTLA ACK on one holder with the arrival link first, by a NAK on at most one holder, by reset), is never negative, and get_score equals window/(in-flight+queued+1). Covers late sends below the ACK high-water mark, ACK jumps across the 64-wide fast path, duplicate/stale ACKs, probe copies, ranges and resets with outstanding packets.",
          "Sequence spans do not wrap (as stated). Where several links could absorb an SRTLA ACK/NAK the oracle accepts any one holder and follows the code. Flush timing is read from the real queue depth. Held on what was explored; absence not proved.",
          "5/C02"),
- "C05": ("E3-lite shellsim + real SequenceTracker / attribute_nak / apply_connection_changes", "exploration",
+ "C05": ("E3-lite shellsim + real SequenceTracker / attribute_nak / apply_connection_changes + decision engine (real handle_srt_packet with the real send_stall_probes)", "exploration",
          "model-based stateful property testing: generated routing/NAK histories against an independent ownership model; per-NAK delta check on all links",
-         "Around every NAKed number (real NAK packets through handle_uplink_packet, or number-by-number through the real attribute_nak) the (loss count, window, in-flight) deltas on all links show at most one charged link, which held the packet, charged exactly (+1, -100 floored at 1000, -1); while the independent ownership model (last unique routing per slot, 5 s, purged on link removal) remembers a carrier no other link is charged; unknown/repeated NAKs change nothing.",
+         "Around every NAKed number (real NAK packets through handle_uplink_packet, or number-by-number through the real attribute_nak) the (loss count, window, in-flight) deltas on all links show at most one charged link, which held the packet, charged exactly (+1, -100 floored at 1000, -1); while the independent ownership model (last unique routing per slot, 5 s, purged on link removal) remembers a carrier no other link is charged; unknown/repeated NAKs change nothing. Histories use up to 6 links and reloads that drop one or two links at once. Real-routing part: whenever the real handle_srt_packet duplicated a datagram onto a stall-gated link, it is flushed and NAKed at once (arrival on the gated link, the carrier or a third link) and NAKed again - the first NAK may charge only the carrier of the unique copy, the repeat nothing.",
          "Ownership model written from the statement (5000 ms inclusive, slot = seq mod 16384). Probe copies are queued the way send_stall_probes does. Held on what was explored.",
          "5/C05"),
- "C06": ("E1 core histories + E3 shellsim tier (real handle_housekeeping)", "exploration",
+ "C06": ("E1 core histories + E3 shellsim tier (real handle_housekeeping) + E6 mode-switch phase on the real loop", "exploration",
          "stateful property testing: inductive invariant checked after every op of generated timed histories on a real SrtlaConnection; real housekeeping ticks with the mode chosen per tick",
-         "Window in [1000,60000] after every op; 20000 on a new link and after mark_for_recovery/reset_for_reconnect; NAK ops never raise, ACK/recovery ops never lower; fast recovery entered only by a NAK at <=2000 and left only at >=12000 or on reset/REG3; in-flight arguments up to i32::MAX (overflow checks on). Shell tier: real handle_housekeeping ticks in classic mode never move the window of a link that stays connected, while enhanced ticks in the same histories do (counted).",
+         "Window in [1000,60000] after every op; 20000 on a new link and after mark_for_recovery/reset_for_reconnect; NAK ops never raise, ACK/recovery ops never lower; fast recovery entered only by a NAK at <=2000 and left only at >=12000 or on reset/REG3; in-flight arguments up to i32::MAX (overflow checks on). Shell tier: real handle_housekeeping ticks in classic mode never move the window of a link that stays connected, while enhanced ticks in the same histories do (counted). E6: on the real loop without client traffic the windows reported in keepalive telemetry stay constant across ticks whenever the mode is classic - at start-up and after run-time mode switches in both directions.",
          "REG3 counts as a link reset for leaving fast recovery. Held on what was explored.",
          "5/C06"),
- "C15": ("proptest+exhaustive (+libFuzzer c15_codec in thorough)", "exploration",
+ "C15": ("proptest+exhaustive (+libFuzzer c15_codec in thorough) + E3 shellsim glue-decode part", "exploration",
          "differential testing against an independent reference decoder: exhaustive for inputs <=2 bytes and all type codes x guard lengths, proptest-generated beyond; builder round-trips",
-         "Every public decoder/predicate agrees with an independently written reference decoder on every explored byte string (exhaustive for lengths 0..2 and for all 65536 type codes at every guard length; generated typed frames, NAK loss lists and mutated keepalives up to 1500 bytes); NAK output size bound; every builder decodes back to its arguments with exact lengths.",
+         "Every public decoder/predicate agrees with an independently written reference decoder on every explored byte string (exhaustive for lengths 0..2 and for all 65536 type codes at every guard length; generated typed frames, NAK loss lists and mutated keepalives up to 1500 bytes); NAK output size bound; every builder decodes back to its arguments with exact lengths. Registration frames (exhaustive): the manager's REG2 id decoder in every state x pending link x arrival link x 6 frame types x every length 0..1500 - no panic, id = bytes 2..258 exactly when a >= 258-byte REG2 arrives on the pending link. Glue-decode: the sequence number the real listener arm (reused receive buffer) attaches to each queued client datagram equals the reference decoder's reading of exactly the received bytes (runts after long datagrams).",
          "Trusts refmodel::codec (written from the C15 statement and SRT/SRTLA docs). Inputs beyond 1500 bytes out of scope. Absence is not proved beyond the enumerated sub-spaces.",
          "5/C15"),
 }
